@@ -63,8 +63,24 @@ func drbgArg(b []byte, pass int) []byte {
 	return append([]byte(nil), b...)
 }
 
+// drbgLevel is the security level whose reseed interval the trace was computed for (cfg step "interval").
+var drbgLevel = drbg.SECURITY_LEVEL_TEST
+
+func setLevel(c Step) {
+	switch c.IntOr("interval", 8) {
+	case int(drbg.DRBG_RESEED_COUNTER_INTERVAL_LEVEL_TEST):
+		drbgLevel = drbg.SECURITY_LEVEL_TEST
+	case int(drbg.DRBG_RESEED_COUNTER_INTERVAL_LEVEL2):
+		drbgLevel = drbg.SECURITY_LEVEL_TWO
+	case int(drbg.DRBG_RESEED_COUNTER_INTERVAL_LEVEL1):
+		drbgLevel = drbg.SECURITY_LEVEL_ONE
+	default:
+		panic("harness: drbg: no security level with this reseed interval")
+	}
+}
+
 func drbgNew(mech string, gm bool, alg string, pass int, e, n, p []byte) (drbg.DRBG, error) {
-	lvl := drbg.SECURITY_LEVEL_TEST
+	lvl := drbgLevel
 	var d drbg.DRBG
 	var err error
 	switch mech {
@@ -296,7 +312,7 @@ func stepList(v interface{}) []Step {
 }
 
 func prngNew(mech string, gm bool, alg string, pass int, src io.Reader, strength int, p []byte) (*drbg.DrbgPrng, error) {
-	lvl := drbg.SECURITY_LEVEL_TEST
+	lvl := drbgLevel
 	switch mech {
 	case "hash":
 		switch {
@@ -395,6 +411,7 @@ func init() {
 				panic("harness: drbg: first step must be cfg")
 			}
 			mech, gm, exact := c.Str("mech"), c.Bool("gm"), c.Bool("exact")
+			setLevel(c)
 			for _, alg := range strList(c["algs"]) {
 				for pass := 0; pass < c.IntOr("passes", 2); pass++ {
 					if mm := run(t, mech, gm, alg, exact, pass); mm != nil {
